@@ -197,7 +197,7 @@ class HyperbandOracle(oracle_module.Oracle):
                     values["tuner/initial_epoch"] = self._get_epochs(
                         bracket_num, round_num - 1
                     )
-                    values["tuner/bracket"] = self._current_bracket
+                    values["tuner/bracket"] = bracket_num
                     values["tuner/round"] = round_num
 
                     round_info.append(
@@ -263,7 +263,7 @@ class HyperbandOracle(oracle_module.Oracle):
         if values:
             values["tuner/epochs"] = self._get_epochs(bracket_num, 0)
             values["tuner/initial_epoch"] = 0
-            values["tuner/bracket"] = self._current_bracket
+            values["tuner/bracket"] = bracket_num
             values["tuner/round"] = 0
             rounds[0].append({"past_id": None, "id": trial_id})
             return {"status": "RUNNING", "values": values}
